@@ -3,6 +3,8 @@
 import sys, os, shutil, subprocess, tempfile, json, re
 V = {}
 def variant(name, *edits): V[name] = edits
+KNOWN_ALARMING = {}
+def alarming(name, *edits): KNOWN_ALARMING[name] = edits
 
 variant("io.Discard",
   ("conn.go", "	_, drainErr := io.Copy(ioutil.Discard, r) // Make sure all the data has been consumed\n	c.writeResponse(code, enhancedCode, msg)", "	_, drainErr := io.Copy(io.Discard, r) // Make sure all the data has been consumed\n	c.writeResponse(code, enhancedCode, msg)"))
@@ -609,12 +611,59 @@ variant("closelisteners-helper",
 
 	connDone := make(chan struct{})"""),
   ("server.go", "// Shutdown gracefully shuts down the server without interrupting any", "// closeListeners closes every listener and returns the first error. The caller holds s.locker.\nfunc (s *Server) closeListeners() error {\n	var err error\n	for _, l := range s.listeners {\n		if lerr := l.Close(); lerr != nil && err == nil {\n			err = lerr\n		}\n	}\n	return err\n}\n\n// Shutdown gracefully shuts down the server without interrupting any"))
+alarming("readerror-helper",
+  ("server.go", """		} else {
+			if err == io.EOF || errors.Is(err, net.ErrClosed) {
+				return nil
+			}
+			if err == ErrTooLongLine {
+				c.writeResponse(500, EnhancedCode{5, 4, 0}, "Too long line, closing connection")
+				return nil
+			}
+
+			if neterr, ok := err.(net.Error); ok && neterr.Timeout() {
+				c.writeResponse(421, EnhancedCode{4, 4, 2}, "Idle timeout, bye bye")
+				return nil
+			}
+
+			c.writeResponse(421, EnhancedCode{4, 4, 0}, "Connection error, sorry")
+			return err
+		}""", """		} else {
+			return c.readFailed(err)
+		}"""),
+  ("server.go", "func (s *Server) network() string {", "// readFailed answers a failed read of a command line; the caller ends the connection.\nfunc (c *Conn) readFailed(err error) error {\n	if err == io.EOF || errors.Is(err, net.ErrClosed) {\n		return nil\n	}\n	if err == ErrTooLongLine {\n		c.writeResponse(500, EnhancedCode{5, 4, 0}, \"Too long line, closing connection\")\n		return nil\n	}\n\n	if neterr, ok := err.(net.Error); ok && neterr.Timeout() {\n		c.writeResponse(421, EnhancedCode{4, 4, 2}, \"Idle timeout, bye bye\")\n		return nil\n	}\n\n	c.writeResponse(421, EnhancedCode{4, 4, 0}, \"Connection error, sorry\")\n	return err\n}\n\nfunc (s *Server) network() string {"))
+alarming("client-mailcmd-helper",
+  ("client.go", """	_, _, err := c.cmd(250, "%s", sb.String())
+	return err
+}
+
+// Rcpt issues a RCPT command""", """	return c.sendLine(sb.String())
+}
+
+// sendLine sends a fully rendered command line expecting 250.
+func (c *Client) sendLine(line string) error {
+	_, _, err := c.cmd(250, "%s", line)
+	return err
+}
+
+// Rcpt issues a RCPT command"""))
+alarming("auth-decode-helper",
+  ("conn.go", """		response, err = decodeSASLResponse(encoded)
+		if err != nil {
+			c.writeResponse(454, EnhancedCode{4, 7, 0}, "Invalid base64 data")
+			return
+		}""", """		var ok bool
+		if response, ok = c.decodeResponse(encoded); !ok {
+			return
+		}"""),
+  ("conn.go", "func decodeSASLResponse(s string) ([]byte, error) {", "// decodeResponse decodes a SASL response line; it answers 454 and reports false when the line is not base64.\nfunc (c *Conn) decodeResponse(encoded string) ([]byte, bool) {\n	response, err := decodeSASLResponse(encoded)\n	if err != nil {\n		c.writeResponse(454, EnhancedCode{4, 7, 0}, \"Invalid base64 data\")\n		return nil, false\n	}\n	return response, true\n}\n\nfunc decodeSASLResponse(s string) ([]byte, error) {"))
 if sys.argv[1:] == ['--export']:
     out = [{"id": "benign-" + n, "edits": [{"file": f, "old": o, "new": w} for f, o, w in V[n]]} for n in V]
     json.dump(out, open('/verif/liveness/benign.json', 'w'), indent=1)
     print(len(out), 'variants exported')
     sys.exit(0)
 names = sys.argv[1:] or list(V)
+V.update({k: v for k, v in KNOWN_ALARMING.items() if k in names})
 env = dict(os.environ, GOFLAGS='-mod=mod', GOPROXY='off', GOSUMDB='off', GOTOOLCHAIN='local')
 for name in names:
     d = tempfile.mkdtemp(prefix='benign.', dir='/tmp')
